@@ -775,6 +775,9 @@ func (in *Interp) conv(tDst, tSrc types.Type, x Value) Value {
 		if !ok {
 			break
 		}
+		if ob, ok := x.(OBytes); ok && eb.Kind() == types.Byte {
+			return OStr{ob.T}
+		}
 		xs := x.([]Value)
 		switch eb.Kind() {
 		case types.Byte:
@@ -805,7 +808,7 @@ func (in *Interp) conv(tDst, tSrc types.Type, x Value) Value {
 				case types.Byte:
 					b, ok := strBytes(x)
 					if !ok {
-						panic(unsupported("[]byte(opaque string)"))
+						return OBytes{x.(OStr).T}
 					}
 					out := make([]Value, len(b))
 					copy(out, b)
